@@ -236,6 +236,69 @@ def directed_shared_toplevel(ctx):
                 return
 
 
+def directed_after_refusals(ctx):
+    """history: derivations the library refuses INSIDE a nested stage lambda (a nested Where that is no test, a record key that is
+    not there, a missing required argument), their queries dropped and collected, and then caller-built lambda objects shared
+    between streams that are followed differently. Whatever the refused derivations left behind, the stream built first keeps its
+    query (objects made after a collection may take the addresses of the dropped ones)"""
+    import gc
+    from typing import Iterable
+
+    from func_adl import EventDataset
+
+    class JetA:
+        def pt(self) -> float: ...
+
+        def tag(self, wp: int) -> bool: ...
+
+    class JetB:
+        def pt(self, scale: float = 2.0) -> float: ...
+
+    class EvA:
+        def jets(self) -> Iterable[JetA]: ...
+
+    class EvB:
+        def jets(self, cone: float = 0.4) -> Iterable[JetB]: ...
+
+    class DS(EventDataset):
+        async def execute_result_async(self, a, title=None):
+            return a
+
+    refused = [
+        "lambda e: e.jets().Where(lambda j: j.pt())",
+        "lambda e: e.jets().Select(lambda j: {'a': j.pt()}).Select(lambda r: r.b)",
+        "lambda e: e.jets().Select(lambda j: j.tag())",
+        "lambda e: e.jets().Select(lambda j: j.pt()).Where(lambda p: p + 1)",
+        "lambda e: e.jets().Where(f=lambda j: j.pt())",
+    ]
+    shared_texts = ["lambda e: e.jets().Select(lambda j: j.pt() + 1)", "lambda e: e.jets().Where(lambda j: j.pt() > 1).Select(lambda j: j.pt())", "lambda j: j.pt()"]
+    n_refused = 0
+    for rnd_i in range(40 if ctx.tier == "quick" else 400):
+        for t in refused:
+            for how in (lambda: DS(EvA).Select(t), lambda: DS(EvA).Select(astx.parse_expr(t)), lambda: DS(EvA).Where(t)):
+                try:
+                    how()
+                except ValueError:
+                    n_refused += 1
+                except Exception:
+                    ctx.count("directed:after-refusals:other-exception")
+        if rnd_i % 2:
+            gc.collect()
+        lams = [astx.parse_expr(shared_texts[(rnd_i + k) % 2]) for k in range(12)]
+        for lam in lams:
+            s1 = DS(EvA).Select(lam)
+            before = astx.dump_fields(s1.query_ast)
+            kept = ast.dump(lam)
+            DS(EvB).Select(lam)
+            ctx.case(None)
+            ctx.count("directed:shared-lambda-objects-after-refused-nested-derivations")
+            if astx.dump_fields(s1.query_ast) != before or ast.dump(lam) != kept:
+                ctx.violation("shared-user-lambda-object-edited-in-place:after-refused-nested-derivations", f"after {n_refused} refused nested derivations (their queries dropped): one ast.Lambda object supplied to two typed streams, deriving the second changed the first (or the caller's object): {astx.unparse(s1.query_ast)[:160]}", {"directed": "after-refusals"})
+                return
+    ctx.case("directed-after-refusals", True)
+    ctx.count("directed:refused-nested-derivations", n_refused)
+
+
 def shard_main(ctx):
     if ctx.shard == 1 % ctx.nshards:
         from ..core import repo_tests_under_monitors
@@ -246,6 +309,8 @@ def shard_main(ctx):
         directed_shared_lambda(ctx)
         directed_shared_toplevel(ctx)
         directed_deep_chain(ctx)
+    if ctx.shard == 2 % ctx.nshards:
+        directed_after_refusals(ctx)
     for i in range(N_CASES[ctx.tier]):
         if ctx.out_of_time():
             ctx.count("stopped-by-time-budget")
@@ -260,7 +325,9 @@ def shard_main(ctx):
 
 
 def replay(ctx, witness):
-    if witness.get("directed") == "deep-chain":
+    if witness.get("directed") == "after-refusals":
+        directed_after_refusals(ctx)
+    elif witness.get("directed") == "deep-chain":
         directed_deep_chain(ctx)
     elif witness.get("directed") == "shared-toplevel":
         directed_shared_toplevel(ctx)
